@@ -334,7 +334,24 @@ fn header_sets(body_len: usize) -> Vec<Vec<(&'static str, String)>> {
     ]
 }
 
+thread_local! {
+    /// The request of the current (content type, limit, headers) combination. actix's test requests
+    /// are never freed (the request returns itself to a pool owned by its own app state), about 3 KB
+    /// each: one per combination instead of one per delivery schedule keeps a thorough run in memory.
+    static REQ_CACHE: std::cell::RefCell<Option<((Option<String>, Option<usize>, Vec<(&'static str, String)>), actix_web::HttpRequest)>> = std::cell::RefCell::new(None);
+}
+
 fn actix_request(content_type: Option<&str>) -> actix_web::HttpRequest {
+    let key = (content_type.map(|s| s.to_string()), ACTIX_LIMIT.with(|c| c.get()), EXTRA_HEADERS.with(|h| h.borrow().clone()));
+    if let Some(r) = REQ_CACHE.with(|c| c.borrow().as_ref().filter(|(k, _)| *k == key).map(|(_, r)| r.clone())) {
+        return r;
+    }
+    let r = actix_request_new(content_type);
+    REQ_CACHE.with(|c| *c.borrow_mut() = Some((key, r.clone())));
+    r
+}
+
+fn actix_request_new(content_type: Option<&str>) -> actix_web::HttpRequest {
     let mut r = actix_web::test::TestRequest::post().uri("/");
     for (k, v) in EXTRA_HEADERS.with(|h| h.borrow().clone()) {
         r = r.insert_header((k, v));
@@ -626,7 +643,16 @@ fn run_target<T: Deserr<E> + std::fmt::Debug + 'static, E: Prescribed>(name: &st
             }
             // large bodies: ≤ 2 chunks at the six principal cut points (the cost is in copying)
             // announced-body header sets (quick tier): one or two chunks only
-            let scheds = if big || (hix != 0 && tier == Tier::Quick) { schedules(&body, 2, false) } else { schedules(&body, max_chunks, all_cuts) };
+            // (every cut point only for bodies up to 300 bytes: the number of three-chunk schedules
+            // grows with the square of the length, their storage with the cube)
+            let scheds = if big || (hix != 0 && tier == Tier::Quick) {
+                schedules(&body, 2, false)
+            } else {
+                schedules(&body, max_chunks, all_cuts && body.len() <= 300)
+            };
+            if std::env::var("VERIF_DEBUG_C20").is_ok() && scheds.len() > 200_000 {
+                eprintln!("DEBUG {name} body {} bytes: {} schedules", body.len(), scheds.len());
+            }
             let mut states = 0u64;
             let mut execs = 0u64;
             // the statement's right-hand side, under the unsplit schedule
@@ -783,6 +809,23 @@ fn main() {
         let mut p = actix_payload(&s);
         let (_, polls) = drive(actix_web::web::Json::<serde_json::Value>::from_request(&req, &mut p)).expect("driver completes");
         assert!(polls >= 3, "scripted Pendings are not observed by the extractor future ({polls} polls)");
+    }
+    if let Ok(which) = std::env::var("VERIF_DEBUG_LEAK") {
+        let rss = || std::fs::read_to_string("/proc/self/statm").ok().and_then(|s| s.split_whitespace().nth(1).and_then(|x| x.parse::<u64>().ok())).unwrap_or(0) * 4;
+        let body = br#"{"name":"a","n":"x"}"#.to_vec();
+        let steps = vec![Step::Chunk(body[..3].to_vec()), Step::Pending, Step::Chunk(body[3..].to_vec())];
+        let before = rss();
+        for _ in 0..300_000 {
+            match which.as_str() {
+                "actix" => { let _ = actix_deserr::<T1, JsonError>(Some("application/json"), &steps); }
+                "actix_expected" => { let _ = actix_expected::<T1, JsonError>(Some("application/json"), &steps); }
+                "axum" => { let _ = axum_deserr::<T1, JsonError>(Some("application/json"), &steps); }
+                "axum_expected" => { let _ = axum_expected::<T1, JsonError>(Some("application/json"), &steps); }
+                _ => { let _ = schedules(&body, 3, true); }
+            }
+        }
+        println!("{which}: RSS grew by {} KiB over 300000 calls", rss() - before);
+        return;
     }
     let mut outcomes: HashSet<u64> = HashSet::new();
     ACTIX_LIMIT.with(|c| c.set(None));
